@@ -311,6 +311,35 @@ def hostile_cases(rng, tier):
             for sched in ([1], [5], [step + 1], []):
                 out.append(({"op": "de", "schema": {"nodes": many}, "bytes": b, "reader": {"kind": "chunks", "sched": sched},
                              "limits": {"depth": 64, "max_seq": 100, "max_alloc": cap}}, many, "fields of increasing size around the allocation cap"))
+    # the depth budget also holds for tuple-like targets (tuples, arrays [T; N], tuple structs read nested arrays through other entry points
+    # than Vec does): nested arrays around the limit, read by the alternative target families with the expected shape
+    for k in (1, 2, 3, 4, 6):
+        t = scopes.prim("long")
+        for _ in range(k):
+            t = scopes.arr(t)
+        Gk = scopes.flatten(t)["nodes"]
+        v = {"t": "long", "v": pyavro.limbs(5)}
+        for _ in range(k):
+            v = {"t": "arr", "es": [v, v] if v["t"] == "long" else [v]}
+        b = pyavro.encode(Gk, 1, v)
+        for depth in (k - 1, k, k + 1, k + 2):
+            if depth < 0:
+                continue
+            # (not the "alt2" family: its Option / enum wrappers are descents of their own and legitimately use up depth)
+            for hints in ("alt", "default"):
+                for rd in ({"kind": "slice"}, {"kind": "chunks", "sched": [2]}):
+                    c = {"op": "de", "schema": {"nodes": Gk}, "bytes": b, "reader": rd, "limits": {"depth": depth, "max_seq": 100, "max_alloc": 1 << 16}}
+                    if hints != "default":
+                        c.update(hints=hints, shape=v)
+                    out.append((c, Gk, f"{k} nested arrays, depth limit {depth}, {hints} targets"))
+    # Option<T> targets over two-branch unions: ALL byte strings of length <= 2 over a boundary alphabet (branch indexes outside the union,
+    # negative, huge)
+    alpha = [0, 1, 2, 3, 4, 5, 6, 127, 128, 254, 255]
+    for t in (scopes.un(scopes.prim("null"), scopes.prim("int")), scopes.un(scopes.prim("int"), scopes.prim("null")), scopes.un(scopes.prim("null"), scopes.prim("string"))):
+        Gu = scopes.flatten(t)["nodes"]
+        for bs in [[a] for a in alpha] + [[a, b2] for a in alpha for b2 in alpha]:
+            out.append(({"op": "de", "schema": {"nodes": Gu}, "bytes": bs, "reader": {"kind": "slice"}, "hints": "alt",
+                         "limits": {"depth": 64, "max_seq": 100, "max_alloc": 1 << 16}}, Gu, "Option<T> target over a two-branch union, arbitrary bytes"))
     # the slice path allocates nothing of its own whatever serde entry point the target uses for the top-level value (what f64, u64, i64,
     # u128, i128, String, &str, Vec<u8>, Option<_> ... targets call): valid encodings of leaves, decimals of every representation, unions
     P, F = scopes.prim, scopes.fixed
